@@ -192,7 +192,23 @@ Definition member_ret (rt : ty) (f : name) : ty :=
   | None => TDynamic
   end.
 
-Fixpoint infer (c : cx) (e : expr) : option ty :=
+(* a function called f is defined in this statement (nested blocks included, nested function
+   bodies excluded) — Resolver::block_defines_function *)
+Fixpoint stmt_defines (f : name) (s : stmt) : bool :=
+  match s with
+  | SFun _ n _ _ _ _ _ => bytes_eqb n f
+  | SIf _ _ t e =>
+      existsb (stmt_defines f) t
+      || match e with Some eb => existsb (stmt_defines f) eb | None => false end
+  | SLoop _ _ b => existsb (stmt_defines f) b
+  | SBlock _ b => existsb (stmt_defines f) b
+  | _ => false
+  end.
+
+(* `sig` = Some body while the signature of the function with that body is inferred (names are
+   then dynamically typed, see GenRules.src_signature_names_dynamic), None while statements
+   are checked *)
+Fixpoint infer_in (sig : option (list stmt)) (c : cx) (e : expr) : option ty :=
   match e with
   | ENum _ => Some TNumber
   | EStr _ | EInterp _ => Some TString
@@ -201,24 +217,28 @@ Fixpoint infer (c : cx) (e : expr) : option ty :=
   | EArr _ => Some TArray
   | EIdx _ _ => Some TDynamic
   | EMember _ _ => Some TDynamic
-  | EVar x _ => lookup_var (cx_vars c) x
+  | EVar x _ => match sig with Some _ => Some TDynamic | None => lookup_var (cx_vars c) x end
   | EBin op a b =>
-      match infer c a, infer c b with
+      match infer_in sig c a, infer_in sig c b with
       | Some l, Some r => infer_bin op l r
       | _, _ => None
       end
-  | EUn op a => match infer c a with Some t => infer_un op t | None => None end
+  | EUn op a => match infer_in sig c a with Some t => infer_un op t | None => None end
   | ECall callee _ _ =>
       match callee with
       | EVar f _ =>
           match global_lookup f with
           | Some (_, t) => Some t
-          | None => match lookup_fun (cx_funs c) f with Some g => Some (fg_ret g) | None => None end
+          | None =>
+              if match sig with Some body => existsb (stmt_defines f) body | None => false end
+              then Some TDynamic
+              else match lookup_fun (cx_funs c) f with Some g => Some (fg_ret g) | None => None end
           end
-      | EMember o f => match infer c o with Some rt => Some (member_ret rt f) | None => None end
+      | EMember o f => match infer_in sig c o with Some rt => Some (member_ret rt f) | None => None end
       | _ => None
       end
   end.
+Definition infer : cx -> expr -> option ty := infer_in None.
 
 (* ---------- expression rules (check_expr) ---------- *)
 Definition tm (ok : bool) : list rule := if ok then [] else [TypeMismatch].
@@ -355,15 +375,15 @@ Definition cond_rules (c : cx) (e : expr) : list rule :=
 
 (* ---------- function signatures of a block (predeclare_block_functions) ---------- *)
 (* return types collected from a body, nested function bodies excluded *)
-Fixpoint ret_types_stmt (c : cx) (s : stmt) : list ty :=
+Fixpoint ret_types_stmt (sig : option (list stmt)) (c : cx) (s : stmt) : list ty :=
   match s with
-  | SRet _ (Some e) => [match infer c e with Some t => t | None => TDynamic end]
+  | SRet _ (Some e) => [match infer_in sig c e with Some t => t | None => TDynamic end]
   | SRet _ None => [TNull]
   | SIf _ _ t f =>
-      flat_map (ret_types_stmt c) t
-      ++ match f with Some eb => flat_map (ret_types_stmt c) eb | None => [] end
-  | SLoop _ _ b => flat_map (ret_types_stmt c) b
-  | SBlock _ b => flat_map (ret_types_stmt c) b
+      flat_map (ret_types_stmt sig c) t
+      ++ match f with Some eb => flat_map (ret_types_stmt sig c) eb | None => [] end
+  | SLoop _ _ b => flat_map (ret_types_stmt sig c) b
+  | SBlock _ b => flat_map (ret_types_stmt sig c) b
   | _ => []
   end.
 Definition summarize (l : list ty) : ty :=
@@ -374,7 +394,8 @@ Definition summarize (l : list ty) : ty :=
 Definition with_sigs (c : cx) (sigs : list fsig) : cx :=
   {| cx_vars := [] :: cx_vars c; cx_funs := sigs :: cx_funs c; cx_loop := cx_loop c; cx_fn := cx_fn c |}.
 Definition ret_type_of (c : cx) (sigs : list fsig) (body : list stmt) : ty :=
-  summarize (flat_map (ret_types_stmt (with_sigs c sigs)) body).
+  summarize (flat_map (ret_types_stmt (if src_signature_names_dynamic then Some body else None)
+                                      (with_sigs c sigs)) body).
 
 (* the registered functions of a block: the first definition of each name, in order *)
 Fixpoint registered (seen : list name) (b : list stmt) : list (fsig * list stmt) :=
@@ -680,3 +701,104 @@ Fixpoint wf_expr (D : name -> Prop) (F : name -> option nat) (e : expr) : Prop :
       /\ (fix all (l : list expr) : Prop := match l with [] => True | a :: r => wf_expr D F a /\ all r end) args
   end.
 
+(* names of the functions defined before a statement of the same block, as the checker
+   accumulates them (`seen`), and at the hole of a context *)
+Definition seen_of (pre : list stmt) (seen : list name) : list name := fold_left see pre seen.
+Definition seen_at (k : sctx) : list name := seen_of (hole_pre k) [].
+
+Definition params_ok (ps : list name) : Prop := NoDup ps /\ forall p, In p ps -> reserved p = false.
+
+(* The rules about names and control flow, read declaratively for the statement s at the hole
+   of k: D = "declared textually before in an enclosing block (or a parameter)", F = parameter
+   count of the visible definition. *)
+Definition stmt_rules_hold (k : sctx) (s : stmt) : Prop :=
+  let D := declared_before k in
+  let F := visible_arity k s in
+  match s with
+  | SFun _ n ps _ _ _ _ => reserved n = false /\ ~ In n (fun_names (hole_pre k)) /\ params_ok ps
+  | SMake _ n _ e => reserved n = false /\ wf_expr D F e
+  | SSet _ x _ e => D x /\ wf_expr D F e
+  | SSetIdx _ t e => wf_expr D F t /\ wf_expr D F e
+  | SIf _ c _ _ => wf_expr D F c
+  | SLoop _ c _ => wf_expr D F c
+  | SBlock _ _ => True
+  | SRet _ eo => fn_at k false = true /\ match eo with Some e => wf_expr D F e | None => True end
+  | SBreak _ => loop_at k false = true
+  | SNext _ => loop_at k false = true
+  | SExpr _ e => wf_expr D F e
+  end.
+
+(* The typing table stays definitional: no TypeMismatch / UnknownMethod / MethodArity among the
+   rules the statement breaks in the checker's own context (declared types as `infer` computes). *)
+Definition typing_ok (k : sctx) (s : stmt) : Prop :=
+  forall r, In r (local_rules (state_at k s cx0) (seen_at k) s) -> table_rule r = false.
+
+Definition own_exprs (s : stmt) : list expr :=
+  match s with
+  | SMake _ _ _ e | SSet _ _ _ e | SExpr _ e => [e]
+  | SSetIdx _ t e => [t; e]
+  | SIf _ c _ _ | SLoop _ c _ => [c]
+  | SRet _ (Some e) => [e]
+  | _ => []
+  end.
+
+(* what it means that rule r is broken by the statement s at the hole of k *)
+Definition broken (r : rule) (k : sctx) (s : stmt) : Prop :=
+  let D := declared_before k in
+  let F := visible_arity k s in
+  match r with
+  | BreakOutsideLoop => (exists sid, s = SBreak sid) /\ loop_at k false = false
+  | NextOutsideLoop => (exists sid, s = SNext sid) /\ loop_at k false = false
+  | ReturnOutsideFunction => (exists sid eo, s = SRet sid eo) /\ fn_at k false = false
+  | AssignUndeclared => exists sid x l e, s = SSet sid x l e /\ ~ D x
+  | DuplicateFunction =>
+      exists sid n ps body fid a b, s = SFun sid n ps body fid a b /\ In n (fun_names (hole_pre k))
+  | DuplicateParameter =>
+      exists sid n ps body fid a b, s = SFun sid n ps body fid a b /\ ~ NoDup ps
+  | ReservedName =>
+      (exists sid n l e, s = SMake sid n l e /\ reserved n = true) \/
+      (exists sid n ps body fid a b, s = SFun sid n ps body fid a b /\
+         (reserved n = true \/ exists p, In p ps /\ reserved p = true))
+  | UndeclaredVar | UndeclaredFunction | ArityMismatch =>
+      exists e, In e (own_exprs s) /\ In r (check_expr (state_at k s cx0) e) /\ ~ wf_expr D F e
+  | TypeMismatch | UnknownMethod | MethodArity =>
+      In r (local_rules (state_at k s cx0) (seen_at k) s)
+  end.
+
+(* an occurrence of variable x: a plain use, or `{x}` inside an interpolated string *)
+Inductive var_atom (x : name) : expr -> Prop :=
+| va_var : forall l, var_atom x (EVar x l)
+| va_interp : forall segs l, In (SegVar x l) segs -> var_atom x (EInterp segs).
+
+(* "rule r is reported for p" — or p contains a duplicate function definition on the way to the
+   offending statement: the checker skips the body of a duplicate definition and reports the
+   duplicate instead.  Either way p is rejected. *)
+Definition reported (r : rule) (p : list stmt) : Prop :=
+  In r (rules (check p)) \/ In DuplicateFunction (rules (check p)).
+
+(* ---------- example programs (non-vacuity Examples of Properties/C09.v) ---------- *)
+Definition nm_i : name := [105].
+Definition nm_f : name := [102].
+Definition nm_p : name := [112].
+Definition nm_x : name := [120].
+Definition num0 : expr := ENum (SpecFloat.S754_zero false).
+(* make i get 0  jasi (i small pass 0) start  i get i add 0  do f() start comot end  f()  end *)
+Definition ex_break_in_fn_in_loop : list stmt :=
+  [SMake None nm_i None num0;
+   SLoop None (EBin OLt (EVar nm_i None) num0)
+     [SSet None nm_i None (EBin Add (EVar nm_i None) num0);
+      SFun None nm_f [] [SBreak None] None 0 0;
+      SExpr None (ECall (EVar nm_f None) [] None)]].
+Definition ex_ctx_fn_in_loop : sctx :=
+  CIn [SMake None nm_i None num0] (FLoop None (EBin OLt (EVar nm_i None) num0))
+      (CIn [SSet None nm_i None (EBin Add (EVar nm_i None) num0)] (FFun None nm_f [] None 0 0)
+           (CHole [] []) [SExpr None (ECall (EVar nm_f None) [] None)]) [].
+(* make x get 0  do f(p) start return p add x end  shout(f(0)) *)
+Definition ex_well_formed : list stmt :=
+  [SMake None nm_x None num0;
+   SFun None nm_f [nm_p] [SRet None (Some (EBin Add (EVar nm_p None) (EVar nm_x None)))] None 0 0;
+   SExpr None (ECall (EVar n_shout None) [ECall (EVar nm_f None) [num0] None] None)].
+(* do f(p) start shout(["a {x}"]) end : x is not declared anywhere *)
+Definition ex_undeclared_interp : list stmt :=
+  [SFun None nm_f [nm_p]
+     [SExpr None (ECall (EVar n_shout None) [EArr [EInterp [SegLit [97; 32]; SegVar nm_x None]]] None)] None 0 0].
